@@ -177,6 +177,9 @@ def many_lines(case):
 # where a unit mix-up or a truncated division shows)
 SWEEP_MS = (1, 999, 1000, 1001, 30000, 59999, 60000, 86399, 86400, 86401, 3_599_999, 3_600_000, 36_000_000, 43_200_000, 86_399_000, 86_399_998)
 SWEEP_DAYS = ((2016, 60), (2021, 168), (2049, 365), (2014, 1))
+# digit strings that look like something else at another alignment of the compact 'YYYYMMDDhhmmssfff' text: a leap second
+# ('235960') shifted by two or three digits, a day/month boundary, all nines / zeros
+LOOKALIKE_HMSM = ((12, 23, 59, 600), (12, 23, 59, 605), (7, 23, 59, 609), (9, 12, 35, 960), (20, 22, 35, 960), (23, 59, 59, 600), (0, 23, 59, 60), (10, 10, 10, 101), (19, 59, 59, 999), (12, 31, 23, 595), (1, 1, 1, 1), (20, 20, 20, 202))
 
 
 def sweep(case):
@@ -225,6 +228,21 @@ def cached(case):
                 if k not in seen:
                     seen.add(k)
                     f["case"] = {"fn": "cached", "day": [y, doy]}
+                    fails.append(f)
+    return {"ok": not fails, "failures": fails, "outcome": "ok" if not fails else "mismatch", "nontrivial": True, "n": n}
+
+
+def lookalikes(case):
+    fails, n, seen = [], 0, set()
+    y, doy = case["day"]
+    for i, hmsm in enumerate(LOOKALIKE_HMSM):
+        for level in ("1.5", "1.1"):
+            n += 1
+            for f in one(level, y, doy, hmsm, US_EXTRA[i % 3]):
+                k = core.jkey(f["sig"])
+                if k not in seen:
+                    seen.add(k)
+                    f["case"] = {"fn": "lookalikes", "day": [y, doy]}
                     fails.append(f)
     return {"ok": not fails, "failures": fails, "outcome": "ok" if not fails else "mismatch", "nontrivial": True, "n": n}
 
@@ -297,7 +315,7 @@ def run(res, tier, seed):
         "instants = (every day [thorough] | days 1,2,59,60,61,365,366 [quick]) of every year 2014..2049 x times 00:00:00.000,"
         " 12:34:56.789, 23:59:59.999 (+0/1/999 us for the us-of-day stamp) x levels 1.5 and 1.1; each instant is written into all"
         " time fields of one product at once; every time leaf is compared with the instant (and the whole tree with the"
-        " reference model); plus 16 times of day at every order of magnitude of the ms/us counters (1 ms .. 86 399 998 ms) on 4 days; plus each time-bearing field alone holding an instant of the neighbouring year; plus 5 instants on 4 days read back through the index cache; plus hours 0-3 of eight daylight-saving switch-over days under four local time zones; plus 12 decimal-second texts of the" " platform-position first point up to 86399.9999996 s on 4 dates (1 us tolerance) and on 96 dates written blank-padded ('2016   1  16'); plus images of 1025/1100/2049 lines (all per-line leaves compared) so that bulk code paths above the default"
+        " reference model); plus 16 times of day at every order of magnitude of the ms/us counters (1 ms .. 86 399 998 ms) on 4 days; plus 12 instants whose compact text looks like a leap second / boundary at another alignment; plus each time-bearing field alone holding an instant of the neighbouring year; plus 5 instants on 4 days read back through the index cache; plus hours 0-3 of eight daylight-saving switch-over days under four local time zones; plus 12 decimal-second texts of the" " platform-position first point up to 86399.9999996 s on 4 dates (1 us tolerance) and on 96 dates written blank-padded ('2016   1  16'); plus images of 1025/1100/2049 lines (all per-line leaves compared) so that bulk code paths above the default"
         " 1024-line chunk are exercised. A case is a batch of 6 days; all distinct, all non-trivial."
     )
     res.assumptions = ["day-of-year 1 = 1 January as the property states; leap seconds are not modelled"]
@@ -307,6 +325,9 @@ def run(res, tier, seed):
         n += out["n"]
     for idx, case, out in core.pool_map(__name__, "sweep", [{"day": list(d)} for d in SWEEP_DAYS], chunksize=1):
         res.record({**case, "fn": "sweep"}, out, order=2 * 10**6 + idx)
+        n += out["n"]
+    for idx, case, out in core.pool_map(__name__, "lookalikes", [{"day": list(d)} for d in ((2020, 65), (2016, 366), (2023, 235))], chunksize=1):
+        res.record({**case, "fn": "lookalikes"}, out, order=7 * 10**6 + idx)
         n += out["n"]
     for idx, case, out in core.pool_map(__name__, "independent", [{}], chunksize=1):
         res.record({"fn": "independent"}, out, order=5 * 10**6 + idx)
